@@ -53,8 +53,8 @@ def call_graph(prog):
     qtoken = [c for c in prog.classes.values() if c.mod.name == "aw_query.query2"]
     for c in qtoken:
         for m in TOKEN_METHODS:
-            if m in c.methods:
-                token_methods[m].append(c.methods[m])
+            if prog.method(c, m) is not None:
+                token_methods[m].append(prog.method(c, m))
     edges = {}
     unresolved = {}
     for fi in prog.funcs.values():
